@@ -156,13 +156,13 @@ impl Exec {
     /// (map id, key type) of the open maps
     pub fn maps(&self) -> Vec<(usize, Kt)> {
         match self {
-            Exec::In(imp) => imp.maps.iter().map(|m| (m.name[1..].parse().unwrap_or(0), m.kt)).collect(),
+            Exec::In(imp) => imp.maps.iter().map(|m| (imp.names.iter().find(|(_, n)| **n == m.name).map(|(i, _)| *i).unwrap_or_else(|| m.name[1..].parse().unwrap_or(0)), m.kt)).collect(),
             Exec::Child(c) => c.maps.iter().map(|m| (m.0, m.1)).collect(),
         }
     }
     pub fn cur(&self) -> usize {
         match self {
-            Exec::In(imp) => imp.maps.get(imp.cur).map(|m| m.name[1..].parse().unwrap_or(0)).unwrap_or(0),
+            Exec::In(imp) => imp.maps.get(imp.cur).map(|m| imp.names.iter().find(|(_, n)| **n == m.name).map(|(i, _)| *i).unwrap_or_else(|| m.name[1..].parse().unwrap_or(0))).unwrap_or(0),
             Exec::Child(c) => c.cur,
         }
     }
